@@ -1,4 +1,5 @@
 mod alloc;
+mod bitops;
 mod core_mp;
 mod core_pp;
 mod crash;
@@ -45,6 +46,7 @@ fn main() {
         "alloc-freelist" => alloc::run_freelist(seed, cases, &mut sink),
         "alloc-probe" => alloc::run_probe(seed, cases, &mut sink),
         "alloc-lookup" => alloc::run_lookup(seed, cases, &mut sink),
+        "bitops" => bitops::run(seed, cases, &mut sink),
         "core-pp" => core_pp::run(seed, cases, &mut sink),
         "core-mp" => core_mp::run(seed, cases, &mut sink),
         "core-mp-corpus" => {
